@@ -6,6 +6,7 @@ import (
 	"bytes"
 	"encoding/base64"
 	"encoding/json"
+	"errors"
 	"fmt"
 	"io"
 	"mime/multipart"
@@ -369,6 +370,19 @@ func TestVfC16(t *testing.T) {
 		if active && !strings.HasPrefix(hdr.Get("Content-Disposition"), "attachment") {
 			r.Violation("active-content-served-inline:"+kind, fmt.Sprintf("%s served with Content-Type %q and Content-Disposition %q", kind, ct, hdr.Get("Content-Disposition")), nil)
 		}
+		// whatever the client says about the disposition, active content is never served inline
+		for _, tail := range []string{"asatt=1", "asatt=true", "asatt=0", "asatt=false", "asatt=F", "asatt=f", "asatt=FALSE", "asatt=junk", "asatt=", "asatt=0&asatt=1", "ASATT=0"} {
+			code, body, hdr := w.do(w.build(c16Req{method: "GET", path: furl + "?" + tail, keyPlace: "header", keyValid: true, credPlace: "xauth", credKind: "token", credValid: true}))
+			r.Hit("active_content_forced_download")
+			r.Eval("content/" + kind + "?" + tail)
+			if code != 200 || !bytes.Equal(body, data) {
+				r.Violation("download-bytes-differ:"+kind+"?"+tail, fmt.Sprintf("download of %s?%s answered %d with %d bytes (uploaded %d)", kind, tail, code, len(body), len(data)), nil)
+				continue
+			}
+			if active && !strings.HasPrefix(hdr.Get("Content-Disposition"), "attachment") {
+				r.Violation("active-content-served-inline:"+kind+"?"+tail, fmt.Sprintf("%s?%s served with Content-Type %q and Content-Disposition %q", kind, tail, hdr.Get("Content-Type"), hdr.Get("Content-Disposition")), nil)
+			}
+		}
 		r.Eval("content/" + kind)
 	}
 	// (3) URL shapes: a 200 answer may only carry the bytes of the completed upload the cleaned URL names
@@ -403,6 +417,42 @@ func TestVfC16(t *testing.T) {
 		}
 		if bytes.Contains(body, []byte("OUTSIDE-SECRET")) {
 			r.Violation("path-traversal:"+sh, "file outside the upload directory served", nil)
+		}
+	}
+
+	// (3b) uploads which fail in the store: refused, and nothing of them outlives a collection without grace period
+	for _, op := range []string{"FileStartUpload", "FileFinishUpload"} {
+		for k := 0; k < r.Pick(2, 6); k++ {
+			store.Files.DeleteUnused(time.Time{}, 0)
+			clean := w.snap()
+			fired := false
+			vfRec.setFault(func(c *vfmem.Call) error {
+				if c.Op == op && !fired {
+					fired = true
+					return errors.New("vf injected failure at " + op)
+				}
+				return nil
+			})
+			data := []byte(fmt.Sprintf("upload which fails at %s #%d", op, k))
+			code, body, _ := w.do(w.build(c16Req{method: "POST", upload: true, path: "/v0/file/u/", keyPlace: "header", keyValid: true, credPlace: "xauth", credKind: "token", credValid: true, body: data}))
+			vfRec.setFault(nil)
+			if !fired {
+				r.Inconclusive("c16: injection point " + op + " not reached")
+				continue
+			}
+			r.Hit("failed_upload_leaves_nothing")
+			r.Eval(fmt.Sprintf("upload-fault/%s/%d", op, code))
+			wit := map[string]any{"fault": op, "status": code, "body": truncate(string(body), 200)}
+			if code == 200 {
+				r.Violation("failed-upload-accepted:"+op, "upload answered 200 although the store call failed", wit)
+			}
+			if after := w.snap(); op == "FileStartUpload" && !after.eq(clean) {
+				r.Violation("refused-upload-left-trace:"+op, fmt.Sprintf("refused upload left a trace: records %v -> %v, files on disk %v -> %v", clean.files, after.files, clean.disk, after.disk), wit)
+			}
+			store.Files.DeleteUnused(time.Time{}, 0)
+			if after := w.snap(); !after.eq(clean) {
+				r.Violation("failed-upload-not-collected:"+op, fmt.Sprintf("after a collection without grace period: records %v -> %v, files on disk %v -> %v", clean.files, after.files, clean.disk, after.disk), wit)
+			}
 		}
 	}
 
@@ -568,6 +618,18 @@ func c16Links(w *c16World, wd *vfWorld, r *vfkit.R) {
 			disk[en.Name()] = true
 		}
 		r.Eval("links/" + vfkit.Hash(scriptShape(script)))
+		// stored bytes without a record can never be collected
+		for name := range disk {
+			known := false
+			for id := range present {
+				if types.ParseUid(id).String32() == name {
+					known = true
+				}
+			}
+			if !known {
+				r.Violation("bytes-without-record", "file "+name+" in the upload directory has no upload record", map[string]any{"script": script})
+			}
+		}
 		for _, id := range all {
 			r.Hit("gc_exact")
 			onDisk := disk[types.ParseUid(id).String32()]
